@@ -619,7 +619,7 @@ class Config(object):
     def __init__(self, n=3, observers=0, batch=True, batch_bytes=2 ** 16, chunk=2 ** 16, journal=None,
                  dyn=False, obj='list', period=0.01, tmin=0.04, tmax=0.05, fallback=1e9, wait_leader=True,
                  qsize=1000, min_entries=1000000, exact_time=False, fuse=False, members=None, conf_extra=None,
-                 consumers=None, use_fork=False, h_all=False, methods=(), free_restart=True, spare=0, versions=(0, 1, 2), serializer=None, kill_only=None, send_faults=False, version_hook=False):
+                 consumers=None, use_fork=False, h_all=False, methods=(), free_restart=True, spare=0, versions=(0, 1, 2), serializer=None, kill_only=None, send_faults=False, version_hook=False, write_buffer=8192):
         self.n = n
         self.observers = observers
         self.batch = batch
@@ -645,6 +645,7 @@ class Config(object):
         self.versions = tuple(versions)
         self.spare = spare              # absent node ids that a membership change may add
         self.free_restart = free_restart   # restarts do not consume budget (kills do)
+        self.write_buffer = write_buffer   # user-space buffer size of file objects (scaled down where snapshots are small)
         self.version_hook = version_hook   # onCodeVersionChanged issues a replicated call
         self.send_faults = send_faults     # HX events: a connection breaks in the middle of a multi-message send call
         self.kill_only = kill_only         # restrict kill events to these nodes (None: every journaled voter)
@@ -745,6 +746,7 @@ def build_node(cfg, nid, members, vfs_obj=None, now=T0, kills=0, extra=None):
     seams.CLOCK[0] = now
     seams.CLOCK_DRIFT[0] = 0.0
     seams.RAND[0] = 0.0      # (a previous closing run may have left another answer behind)
+    vfs.WRITE_BUFFER = cfg.write_buffer
     seams.NONCE[0] = kills << 20    # what a real random source gives: another value in every incarnation of the process
     vfs.activate(b.vfs)
     b.vfs.begin_step()
@@ -885,6 +887,7 @@ def run_event(b, ev, cfg, kill_at=None):
     b.tr.sends = 0
     SENT_TO.clear()
     SEND_FAIL[0] = None
+    vfs.WRITE_BUFFER = cfg.write_buffer
     kind = ev[0]
     exc = None
     killed = False
